@@ -192,4 +192,66 @@ def x_alph_reobserve():
     return out, {"address_filter": addr, "block_filter": blk, "wallclock": wall == "true", "chain_id": int(cid.group(1)), "txid_len": int(rq.group(1))}
 
 
-EXTRACTORS = [("alph_confirm", x_alph_confirm), ("alph_poll", x_alph_poll), ("alph_tokeninfo", x_alph_tokeninfo), ("alph_reobserve", x_alph_reobserve)]
+def in_order(body, pats, what):
+    pos = 0
+    for pat in pats:
+        m = re.compile(pat, re.S).search(body, pos)
+        if not m:
+            raise Broken("%s: `%s` not found (in order)" % (what, pat))
+        pos = m.end()
+
+
+def x_alph_process():
+    """shape of the event loop (handleEvents_ / handleEvents) and of fetchEvents' initialisation and hand-over: the model's
+    process_block / add_event / step are written after exactly this shape"""
+    src = rd("node/pkg/alephium/watcher.go")
+    he = func_body(src, r'^func \(w \*Watcher\) handleEvents_\(', "handleEvents_")
+    in_order(he, [
+        r'pendingEvents := map\[string\]\*UnconfirmedEventsPerBlock\{\}',
+        r'process := func\(height int32\) error \{\s*now := time\.Now\(\)\.UnixMilli\(\)',
+        r'confirmedEvents := make\(\[\]\*ConfirmedEvent, 0\)\s*for blockHash, blockEvents := range pendingEvents \{',
+        r'isCanonical, err := isBlockInMainChain\(blockHash\)\s*if err != nil \{[^}]*?return err\s*\}',
+        r'if blockEvents\.header == nil \{\s*blockHeader, err := getBlockHeader\(blockHash\)\s*if err != nil \{[^}]*?return err\s*\}\s*blockEvents\.header = blockHeader\s*\}',
+        r'remain := make\(\[\]\*UnconfirmedEvent, 0\)',
+        r'for _, event := range blockEvents\.events \{\s*if !isEventConfirmed\(logger, event, blockEvents\.header, now, height, w\.isMainnet\) \{\s*remain = append\(remain, event\)\s*continue\s*\}',
+        r'if !\*isCanonical \{\s*logger\.\w+\([^\n]*\)\s*continue\s*\}',
+        r'confirmedEvents = append\(confirmedEvents, &ConfirmedEvent\{\s*event:\s*event,\s*header:\s*blockEvents\.header,\s*\}\)\s*\}',
+        r'if len\(remain\) == 0 \{\s*delete\(pendingEvents, blockHash\)\s*\} else \{\s*blockEvents\.events = remain\s*\}\s*\}',
+        r'if len\(pendingEvents\) == 0 \{\s*w\.DisableBlockPoller\(\)\s*\}',
+        r'if len\(confirmedEvents\) == 0 \{\s*return nil\s*\}',
+        r'if err := handler\(logger, confirmedEvents\); err != nil \{[^}]*?return err\s*\}\s*return nil\s*\}',
+        r'case events := <-eventsC:\s*if len\(events\) != 0 \{\s*w\.EnableBlockPoller\(\)\s*\}',
+        r'for _, event := range events \{\s*blockHash := event\.BlockHash\s*if lst, ok := pendingEvents\[blockHash\]; ok \{\s*lst\.events = append\(lst\.events, event\)\s*\} else \{'
+        r'\s*pendingEvents\[blockHash\] = &UnconfirmedEventsPerBlock\{\s*events: \[\]\*UnconfirmedEvent\{event\},\s*\}\s*\}\s*\}',
+        r'case height := <-heightC:\s*if err := process\(height\); err != nil \{\s*errC <- err\s*return\s*\}',
+    ], "handleEvents_")
+    hw = func_body(src, r'^func \(w \*Watcher\) handleEvents\(', "handleEvents")
+    in_order(hw, [r'return client\.IsBlockInMainChain\(ctx, hash\)', r'return client\.GetBlockHeader\(ctx, hash\)',
+                  r'w\.handleEvents_\(ctx, logger, isBlockInMainChain, getBlockHeader, w\.handleConfirmedEvents, errC, eventsC, heightC\)'], "handleEvents")
+    fe = func_body(src, r'^func \(w \*Watcher\) fetchEvents\(', "fetchEvents")
+    in_order(fe, [
+        r'contractAddress := w\.governanceContractAddress',
+        r'currentEventCount, err := client\.GetContractEventsCount\(ctx, contractAddress\)\s*if err != nil \{[^}]*?errC <- err\s*return\s*\}',
+        r'fromIndex := \*currentEventCount',
+        r'case <-eventTick\.C:\s*count, err := client\.GetContractEventsCount\(ctx, contractAddress\)\s*if err != nil \{[^}]*?errC <- err\s*return\s*\}',
+        r'unconfirmedEvents := make\(\[\]\*UnconfirmedEvent, 0\)\s*for \{',
+        r'if err != nil \{[^}]*?errC <- err\s*return\s*\}',
+        r'unconfirmed, err := w\.handleUnconfirmedEvents\(ctx, logger, events\)',
+        r'unconfirmedEvents = append\(unconfirmedEvents, unconfirmed\.\.\.\)',
+        r'eventsC <- unconfirmedEvents',
+    ], "fetchEvents")
+    hu = func_body(src, r'^func \(w \*Watcher\) handleUnconfirmedEvents\(', "handleUnconfirmedEvents")
+    in_order(hu, [r'unconfirmedEvents := make\(\[\]\*UnconfirmedEvent, 0\)\s*for _, event := range events\.Events \{\s*contractEvent := event',
+                  r'\} else \{[^}]*?\}\s*unconfirmedEvents = append\(unconfirmedEvents, unconfirmed\)\s*\}\s*return unconfirmedEvents, nil'], "handleUnconfirmedEvents")
+    fh = func_body(src, r'^func \(w \*Watcher\) _fetchHeight\(', "_fetchHeight")
+    in_order(fh, [r'enabled := w\.blockPollerEnabled\.Load\(\)\s*if !enabled \{\s*continue\s*\}', r'latestHeight, err := getCurrentHeight\(\)\s*if err != nil \{[^}]*?errC <- err\s*return\s*\}',
+                  r'heightC <- \*latestHeight'], "_fetchHeight")
+    rn = func_body(src, r'^func \(w \*Watcher\) Run\(', "Run")
+    in_order(rn, [r'go w\.fetchEvents\(ctx, logger, w\.client, errC, eventsC\)', r'go w\.handleObsvRequest\(ctx, logger, w\.client\)', r'go w\.fetchHeight\(ctx, logger, w\.client, errC, heightC\)',
+                  r'go w\.handleEvents\(ctx, logger, w\.client, errC, eventsC, heightC\)', r'case err := <-errC:\s*return err'], "Run")
+    out = ("(* shape of handleEvents_ / fetchEvents / _fetchHeight / Run verified against the source (see gen/x_alph.py x_alph_process) *)\n"
+           "Definition alph_event_loop_shape_checked : bool := true.\n")
+    return out, {"checked": ["handleEvents_", "handleEvents", "fetchEvents", "handleUnconfirmedEvents", "_fetchHeight", "Run"]}
+
+
+EXTRACTORS = [("alph_confirm", x_alph_confirm), ("alph_poll", x_alph_poll), ("alph_tokeninfo", x_alph_tokeninfo), ("alph_reobserve", x_alph_reobserve), ("alph_process", x_alph_process)]
